@@ -2,6 +2,7 @@
 import os
 from . import common, zwcorr, dwcorr, forest
 from .c05 import walk
+from . import c17
 
 THEOREMS = ["ZwVerif.C07." + t for t in
             ["signExtend_roundtrip_1", "signExtend_roundtrip_2", "signExtend_roundtrip_4", "signExtend_roundtrip_8",
@@ -110,9 +111,11 @@ def run(ctx):
     classes = {}
     boundary = 0
     errors_expected = 0
+    locstats = {}
     try:
         for k in range(n):
-            opts = {"max_units": 3, "extras": 0.6, "refused": 0.02}
+            opts = {"max_units": 3, "extras": 0.6, "refused": 0.02, "rich_ops": 0.4, "loclists": 0.3 if k % 2 else 0.0,
+                    "dup_attrs": 0.1 if k % 4 == 2 else 0.0, "implicit_consts": 0.5}
             if k % 3 == 1:
                 opts["const_forms"] = ("data1", "data2", "data4", "data8")
             desc, path = fs.make(rng, **opts)
@@ -127,7 +130,7 @@ def run(ctx):
             for line in model:
                 o, i, kind = line.split(" ", 2)
                 want[(int(o), int(i))] = kind
-            recs, crashes = fs.query(path, [VALUE_QUERY])
+            recs, crashes = fs.query(path, [VALUE_QUERY, c17.LOC_Q])
             if crashes:
                 ctx.violation("the library crashed decoding attribute values: %r" % (crashes,),
                               {"stream": "C07-forest", "input": fs.inp(desc, path, VALUE_QUERY)})
@@ -212,6 +215,9 @@ def run(ctx):
                 bad = True
                 ctx.violation("the library wrote %d diagnostic line(s), the model expects %d (%r)" % (ndiag, exp_diag, recs[0].soft[:3]),
                               {"stream": "C07-diag", "input": fs.inp(desc, path, VALUE_QUERY), "got": ndiag, "expected": exp_diag})
+            # location attributes: one element per address range with the stored operations and operands (shared with C17)
+            if len(recs) > 1 and recs[1].err is None and not c17.check_locations(ctx, fs, desc, path, recs[1].res, locstats, "C07-loc"):
+                bad = True
             if not bad:
                 ok += 1
     finally:
@@ -222,6 +228,8 @@ def run(ctx):
     ctx.cov["forests_fully_agreeing"] = ok
     ctx.cov["boundary_valued_integers"] = boundary
     ctx.cov["refusals_expected_and_seen"] = errors_expected
+    ctx.cov["location_operations_compared"] = locstats.get("ops", 0)
+    ctx.cov["location_lists"] = locstats.get("lists", 0)
     ctx.cov["classes"] = dict(sorted(classes.items(), key=lambda kv: -kv[1])[:80])
     ctx.cov["rule"] = ("every attribute of every DIE of generated forests: `value` through the library vs the value stored in the file "
                        "decoded by the Lean model (dispatch tables regenerated from atval.cc; signedness of const_value from the type "
